@@ -65,6 +65,18 @@ CHECKS = {
                 "captures), our pcapng reader; only v1, only conformant histories; data bytes from VERIF_SEED",
         "technique": "deviation-bounded exhaustive enumeration + explicit-state protocol model whose every trace is replayed on the implementation",
     },
+    "C15": {
+        "category": "exploration",
+        "text": "Structurally exhaustive: every table suite x every valid version (TLS), every initial DCID length 0..20 x 4 "
+                "suites x key-update generations 0..3 x early secret present/absent x Retry (QUIC); a modelled handshake goes "
+                "through run() and the key material installed in the real Decryptor / QuicSession objects is compared with an "
+                "independent hashlib/hmac implementation of the RFC key schedules. Data (secrets, randoms, CIDs) are 3 draws "
+                "per structural case.",
+        "design_ref": "DESIGN.md section 5, C15",
+        "note": "trusted: mc/model/kdf.py (cross-checked by mc/validate.py); the data dimension is sampled, not enumerated "
+                "(exhaustive:false) - the KDF code has no data-dependent control flow",
+        "technique": "exhaustive enumeration of the structural space (suite x version x lengths x generations) against an independent KDF",
+    },
 }
 
 NOT_YET = "check not built yet in this round (planned: bounded exhaustive exploration, see DESIGN.md section 5)"
